@@ -181,6 +181,47 @@ func (c *vCluster) prefix(p int, timeouts int) {
 		c.flush(nil)
 		return
 	}
+	if c.byz == 0 && p == 4 {
+		// deep prefix (Byzantine first leader, views up to 1+timeouts):
+		//  view 0: the Byzantine leader shows X to the two highest correct nodes only; their PREPARE(X, view 0)
+		//          reach nobody but the Byzantine member (which keeps the genuine signatures for replay);
+		//  view 1: everybody times out, the correct leader of view 1 is elected by proof-less votes, proposes a
+		//          fresh Y, all correct nodes prepare Y, the COMMITs reach that leader only: it commits Y, the
+		//          other two stay locked on (Y, view 1);
+		//  then `timeouts` further rounds of election timeouts at the two locked nodes, all votes lost except
+		//  those of the last round, which are still in flight when the adversary moves.
+		cs := c.correct()
+		x := &stub.Block{H: 1, Tag: 0x51, ProposalOK: true}
+		lost := func(from, to int, m interfaces.ConsensusMessage) bool { return false }
+		noCommits := func(from, to int, m interfaces.ConsensusMessage) bool {
+			_, isC := m.(*interfaces.CommitMessage)
+			return !isC
+		}
+		for _, i := range cs[1:] {
+			c.nodes[i].deliver(c.wd.net.ppm(0, 1, 0, x).ToConsensusRawMessage())
+		}
+		c.flush(lost)
+		for _, i := range cs {
+			c.nodes[i].timeout()
+		}
+		c.flush(noCommits)
+		l1 := cs[0]
+		for _, i := range cs[1:] {
+			for _, s := range c.nodes[i].comm.Out {
+				if _, ok := s.Msg.(*interfaces.CommitMessage); ok {
+					c.nodes[l1].deliver(s.Raw)
+				}
+			}
+		}
+		env.Assert("C01.prefix4.partial_commit", len(c.nodes[l1].commits) == 1 && len(c.nodes[cs[1]].commits) == 0 && len(c.nodes[cs[2]].commits) == 0)
+		for t := 0; t < timeouts; t++ {
+			c.flush(lost)
+			for _, i := range cs[1:] {
+				c.nodes[i].timeout()
+			}
+		}
+		return
+	}
 	if c.byz == 0 {
 		// Byzantine first leader: no honest proposal exists
 		if thenTimeout {
@@ -262,7 +303,11 @@ func (c *vCluster) prefix(p int, timeouts int) {
 // C01_Run: prefix ; (adversarial multicast to a symbolic subset ; full FIFO flush)^a ; agreement.
 func C01_Run() {
 	byz := env.Param("byz")
-	c := newCluster(byz, equalWeights(4))
+	w := equalWeights(4)
+	if env.Param("weights") == 1 {
+		w = []uint64{1, 2, 3, 4}
+	}
+	c := newCluster(byz, w)
 	c.prefix(env.Param("prefix"), env.Param("timeout"))
 	c.checkAgreement()
 	if env.Param("debug") == 1 {
